@@ -123,6 +123,34 @@ CHECKS['C05'] = dict(
     technique="TLA+ definition of point/tuple formation, TLC-enumerated index patterns replayed into code in four representations, TLC trace validation",
     ref="DESIGN.md section 5 C05")
 
+CHECKS['C06'] = dict(
+    text=("TLC enumerates the input grammar of spec/Validate.tla per (estimator kind, method): structural descriptors "
+          "(ndim 0..4, empty axes, tuple-axis length 1..5, feature count vs fitted, dtype class, NaN/inf position, pair-"
+          "label alphabet, label length, n_components, with/without preprocessor) with up to 2 simultaneous deviations "
+          "from the documented form, with invariants that the decision table is total and every single deviation is "
+          "rejected; each state is materialised into a concrete argument and the method is called on every class of the "
+          "kind (fit on fresh, the others on fitted estimators); TLC (TR_Validate) requires the outcome Validate!Outcome "
+          "prescribes (ok / ValueError, no other exception type) and, for well-formed arguments, the same numbers for "
+          "list / integer / Fortran / non-contiguous / index+preprocessor forms."),
+    note=("The decision table is written from the documentation. 'Same results' across array-likes is up to rounding "
+          "(2^-15 of the largest entry: a memory layout may change BLAS summation order by an ulp and an iterative "
+          "learner amplifies it). Non-numeric entries are genuine non-numeric strings / None."),
+    technique="TLA+ input grammar enumerated by TLC, states materialised and executed on the code, TLC trace validation of outcomes",
+    ref="DESIGN.md section 5 C06")
+CHECKS['C08'] = dict(
+    text=("MC_Supervised (TLC): the one-step FitSupervised and the two-step Generate;FitBase reach the same model term for "
+          "all six classes, with and without unlabeled points. Conformance: per case the supervised estimator is fitted "
+          "with the Constraints helper wrapped (the constraints it drew are recorded), the helper is called directly "
+          "with the same arguments and seed and the base learner fitted on the resulting tuples, and the supervised "
+          "estimator is refitted on data that differs only in the unlabeled rows; TLC (TR_Supervised) decides: same "
+          "constraints, constraints sound w.r.t. the labels (predicates of Constraints.tla), no unlabeled index, "
+          "M(sup) ~ M(base), M(changed unlabeled rows) ~ M(sup), in exact dyadic arithmetic."),
+    note=("Equality of a fit on the full set and on the labelled subset is deliberately not required (the chunk generator "
+          "draws from Python sets whose order depends on index values). SCML_Supervised with basis='lda' has no base "
+          "counterpart: only the constraint clauses and the unlabeled-rows clause apply."),
+    technique="TLA+ refinement model + TLC trace validation of recorded supervised / helper+base / perturbed-unlabeled executions",
+    ref="DESIGN.md section 5 C08")
+
 NOT_YET = {}
 
 def main():
